@@ -156,6 +156,25 @@ func main() {
 			die("%v", err)
 		}
 	}
+	// TryLock makes the inside of critical sections observable: if the source uses it anywhere, the
+	// controlled runtime also schedules before every Unlock (off otherwise: it multiplies the points).
+	tryLock := false
+	for _, f := range files {
+		ast.Inspect(f, func(n ast.Node) bool {
+			if sel, ok := n.(*ast.SelectorExpr); ok && (sel.Sel.Name == "TryLock" || sel.Sel.Name == "TryRLock") {
+				tryLock = true
+			}
+			return true
+		})
+	}
+	stats["uses-trylock"] = 0
+	if tryLock {
+		stats["uses-trylock"] = 1
+		gen := "//go:build verif\n\npackage rosmar\n\nimport \"" + modPath + "/vrt\"\n\nfunc init() { vrt.UnlockPoints = true }\n"
+		if err := os.WriteFile(filepath.Join(*dst, "zz_verif_trylock.go"), []byte(gen), 0o644); err != nil {
+			die("%v", err)
+		}
+	}
 	if *vrtDir != "" {
 		copyTree(*vrtDir, filepath.Join(*dst, "vrt"))
 	}
